@@ -142,6 +142,13 @@ def chk_equal_dicts(tree, o):
     return []
 
 
+def moved(od, *moves):
+    """OrderedDict after a sequence of move_to_end(key, last) calls (its own order != underlying dict storage order)."""
+    for key, last in moves:
+        od.move_to_end(key, last=last)
+    return od
+
+
 FN_SRC = None
 
 
@@ -149,7 +156,7 @@ def fn_src():
     global FN_SRC
     if FN_SRC is None:
         FN_SRC = U.ref_src() + U.SRC(order_clause, culprit, ref_shape, spec_shape, chk_order, chk_nil_law,
-                                     chk_pred_reflatten, chk_replace_nones, chk_equal_dicts)
+                                     chk_pred_reflatten, chk_replace_nones, chk_equal_dicts, moved)
     return FN_SRC
 
 
@@ -247,6 +254,26 @@ def run(tier: str, seed: int):
                 U.run_checks(col, PROP, [chk_equal_dicts], src, pair, lambda pair=pair: U.to_src(pair), o,
                              f'equal {kind}s {dcts[0]!r} / {other!r}')
                 col.nontrivial((pname, kind, repr(list(other)), 'equal', nil))
+    # OrderedDicts whose order was changed by move_to_end (order of the OrderedDict itself, not of its dict storage)
+    nmoved = 0
+    for pname in ('rev_str', 'mixed', 'unorderable'):
+        pool = POOLS[pname][:3]
+        for r in (2, 3):
+            for perm in itertools.permutations(pool, r):
+                ops = [(k, last) for k in perm for last in (True, False)]
+                for moves in [(m,) for m in ops] + (list(itertools.product(ops, repeat=2)) if tier == 'thorough' or r == 2 else []):
+                    before = OrderedDict((k, S.L(i)) for i, k in enumerate(perm))
+                    msrc = ', '.join(f'({U.key_src(k)}, {last})' for k, last in moves)
+                    bare_src = f'moved({U.to_src(before)}, {msrc})'
+                    od = moved(before, *moves)
+                    nmoved += 1
+                    for w, wsrc in ((od, bare_src), ([S.L(90), od], f'[S.L(90), {bare_src}]')):
+                        for o in U.grid(predicates=False):
+                            if o['namespace'] == S.NS_OTHER:
+                                continue
+                            U.run_checks(col, PROP, [chk_order], src, w, wsrc, o,
+                                         f'OrderedDict {list(perm)!r} after move_to_end {list(moves)!r} [{U.opt_repr(o)}]')
+                            col.nontrivial((pname, 'moved', repr(perm), repr(moves), type(w).__name__, U.opt_repr(o)))
     col.sample(f"partly5 pool {POOLS['partly5']!r}: reference order of {{3,UKey(0),UKey(1)}} inserted as "
                f"[UKey(0),3,UKey(1)] is insertion order; optree gives "
                f"{optree.tree_leaves({S.UKey(0): 0, 3: 1, S.UKey(1): 2})!r}")
@@ -257,8 +284,8 @@ def run(tier: str, seed: int):
               f'[None, is_leaf_list, is_leaf_dictlike] x dict-order mode (trees holding a dict/defaultdict); '
               f'{nperm} (pool, kind, insertion order) permutations of <= 3 keys (+ whole pool) over pools '
               f'{list(POOLS)} x dict/defaultdict/OrderedDict, bare and under tuple/dict/custom parents; '
-              f'equal-dict law on all sortable key sets',
-        exhaustive=(tier == 'thorough'),
+              f'equal-dict law on all sortable key sets; {nmoved} OrderedDicts reordered by one or two move_to_end calls',
+        exhaustive=False,
         notes='equal-dicts law is only checked for key sets that one of the two documented sorts can order '
               '(for unsortable sets the documented result is insertion order, which contradicts the law); '
               'treespec equality there uses ==; hash parity is C06.',
